@@ -45,7 +45,10 @@ EPS_PIT = 1e-10
 # generators
 def gen_grid(rng):
     """(step, levels): distinct values are k*step, separated by >= step >> tie tolerance"""
-    kind = rng.choice(["ties4", "ties4", "int", "dec", "neg", "coarse"])
+    kind = rng.choice(["ties4", "ties4", "int", "dec", "neg", "coarse", "fine"])
+    if kind == "fine":
+        # distinct values only twice the default tolerance apart
+        return kind, 2e-6, list(range(0, 25))
     if kind == "ties4":
         return kind, rng.choice([1.0, 0.5, 2.0]), list(range(4))
     if kind == "int":
@@ -105,14 +108,14 @@ def gen_ens(rng, nmax, mmax):
                 K[i, j] = rng.choice(levels) + off
     scale = 1.0
     if rng.random() < 0.12:
-        scale = rng.choice([1e17, 1e16, 3e18, 1e-2 if step >= 0.25 else 1.0, 1e6])
+        scale = rng.choice([1e17, 1e16, 3e18, 1e-2 if step >= 0.25 else 1.0, 1e6]) if gkind != "fine" else rng.choice([1.0, 1e17])
     gap = step * scale
     sim = K.astype(float) * gap
     eps = 1e-6
     if rng.random() < 0.25:
         eps = rng.choice([1e-7, 1e-4, 1e-6])
     if gap < 20 * eps:
-        eps = 1e-6
+        eps = 1e-6 if gap >= 1.9e-6 else gap / 2
     return {"obs": obs, "sim": sim, "eps": eps, "gen": f"{gkind}/{shape}" + ("/scaled" if scale != 1.0 else ""),
             "gap": gap}
 
@@ -180,6 +183,12 @@ def valid_ranking(obs, rk):
     if sorted(int(r) for r in rk) != list(range(n)):
         return False
     return all(not (obs[i] < obs[k]) or rk[i] < rk[k] for i in range(n) for k in range(n))
+
+
+def shape_tag(gen):
+    """histogram key: the shape of the case (grid kinds are counted under dscore/grid=...)"""
+    parts = gen.split("/")
+    return parts[0] if parts[0] in ("fixed",) or parts[0].startswith("exhaustive") else "/".join(parts[1:])
 
 
 def rowstr(sim):
@@ -265,11 +274,15 @@ def body(ctx):
         if np.array_equal(onp, ost):
             add(f"dscore {C.f2h(eps)} {m} {C.flist(obs)} {rowstr(sim)}", "dscore", D, jc)
             obranch = "stable"
+            ctx.hist["dscore/obs_ranks_by_model"] = ctx.hist.get("dscore/obs_ranks_by_model", 0) + 1
         else:
             add(f"dscorer {C.f2h(eps)} {m} {C.ilist(onp)} {rowstr(sim)}", "dscore", D, jc)
             obranch = "numpy_tiebreak"
+            ctx.hist["dscore/obs_ranks_from_numpy_tiebreak"] = ctx.hist.get("dscore/obs_ranks_from_numpy_tiebreak", 0) + 1
+        gk = "dscore/grid=" + case["gen"].split("/")[0]
+        ctx.hist[gk] = ctx.hist.get(gk, 0) + 1
         ctx.count(("dscore", tuple(obs), sim.tobytes(), eps), math.isfinite(D),
-                  f"dscore/{case['gen']}/m={'1' if m == 1 else '2+'}/obs_{obranch}",
+                  f"dscore/{shape_tag(case['gen'])}/m={'1' if m == 1 else '2+'}",
                   sample={"obs": obs[:5], "sim": sim[:3].tolist(), "eps": eps, "D": D})
         if wr is None:
             return
@@ -364,7 +377,7 @@ def body(ctx):
 
     # ---------------- random stream
     nmax, mmax = (25, 12) if not ctx.thorough else (40, 20)
-    for _ in range(ctx.scale(1100, 11000)):
+    for _ in range(ctx.scale(2500, 25000)):
         dscore_case(gen_ens(rng, nmax, mmax))
 
     # ---------------- malformed stream for the kernel
@@ -391,7 +404,7 @@ def body(ctx):
             ctx.finding("ensrank/accepts_invalid", "c_ensrank accepts eps < 1e-20 or an empty dimension", {"kind": kind, "n": n, "m": m, "eps": eps})
 
     # ---------------- PIT
-    for it in range(ctx.scale(350, 3500)):
+    for it in range(ctx.scale(600, 6000)):
         n = rng.choice([1, 2, 3, 5, 10, 30])
         m = rng.choice([1, 2, 3, 5, 8, 12])
         step = rng.choice([1.0, 0.5, 0.1])
@@ -463,9 +476,16 @@ def body(ctx):
         txt = " ".join(adsrc[max(0, line - 3):line])
         return "nan" if "isnan" in txt else "unsorted" if "prev" in txt else "range" if "<0" in txt.replace(" ", "") else "other"
 
-    for it in range(ctx.scale(450, 4500)):
+    # the facts about the shipped table that cvm_pvalue_range takes as hypotheses
+    tab, qq = np.asarray(metrics.CVM_TABLE, dtype=float), np.asarray(metrics.CVM_QQ, dtype=float)
+    if not (np.all(np.diff(qq) > 0) and np.all((tab >= 0) & (tab <= 1)) and tab.shape[0] == len(qq)):
+        ctx.finding("cvm/table_outside_unit_interval", "the tabulated CvM p-values are not in [0, 1] over increasing abscissae",
+                    {"min": float(tab.min()), "max": float(tab.max()), "shape": list(tab.shape)})
+    ctx.count(("cvmtable", tab.shape), True, "cvm/table_checked")
+
+    for it in range(ctx.scale(700, 7000)):
         n = rng.choice([1, 2, 3, 5, 10, 30, 100, 300]) if rng.random() < 0.7 else rng.randint(1, 300 if not ctx.thorough else 900)
-        kind = rng.choice(["uniform", "uniform", "ties", "edges", "beta", "sorted"])
+        kind = rng.choice(["uniform", "uniform", "ties", "edges", "beta", "sorted", "regular", "regular"])
         if kind == "uniform":
             x = [rng.uniform(1e-9, 1 - 1e-9) for _ in range(n)]
         elif kind == "ties":
@@ -474,6 +494,11 @@ def body(ctx):
             x = [rng.choice([1e-12, 1 - 1e-12, 0.5, rng.uniform(0.01, 0.99)]) for _ in range(n)]
         elif kind == "beta":
             x = [min(max(rng.betavariate(0.5, 2.0), 1e-9), 1 - 1e-9) for _ in range(n)]
+        elif kind == "regular":
+            # evenly spaced plotting positions (smallest possible statistics), exact or slightly perturbed
+            w = rng.choice([0.0, 0.0, 0.1, 0.5])
+            x = [(2 * i + 1 + w * rng.uniform(-1, 1)) / (2 * n) for i in range(n)]
+            rng.shuffle(x)
         else:
             x = sorted(rng.uniform(1e-6, 1 - 1e-6) for _ in range(n))
         bad = None
@@ -492,7 +517,8 @@ def body(ctx):
         except ValueError as e:
             impl = "err"
             adk = ad_kind(str(e))
-        add(f"ad {C.flist(x)}", "ad", (impl, float(adstat) if impl == "ok" else None), case)
+        add(f"ad {C.flist(x)}", "ad", (impl, float(adstat) if impl == "ok" else None,
+                                        float(adp) if impl == "ok" and valid else None), case)
         ctx.count(("ad", xa.tobytes()), impl == "ok", f"ad/{kind}/" + ("accepted" if impl == "ok" else "rejected_" + adk))
         if impl == "ok" and not valid:
             ctx.finding("ad/accepts_outside_unit_interval", "Anderson-Darling test accepts data outside [0, 1] or NaN", {**case})
@@ -510,6 +536,10 @@ def body(ctx):
         # CvM
         cv, cvp = metrics.cramer_von_mises_test(xa)
         add(f"cvm {C.flist(x)}", "cvm", float(cv), case)
+        if it % 4 == 0:
+            col = int(np.argmin(np.abs(n - metrics.CVM_NSAMPLE)))
+            add(f"cvmidx {n} {C.ilist(metrics.CVM_NSAMPLE)}", "cvmidx", f"some {col}", case)
+            add(f"cvmp {C.f2h(cv)} {C.flist(metrics.CVM_QQ)} {C.flist(metrics.CVM_TABLE[:, col])}", "cvmp", float(cvp), case)
         if n <= 12:
             add(f"cvmq [{','.join(C.rat(v) for v in x)}]", "cvmq", float(cv), case)
         q = [Fraction(v) for v in xs]
@@ -529,7 +559,7 @@ def body(ctx):
                         {**case, "cvm": [float(cv), float(cv2)], "ad": [float(adstat), float(ad2)]})
 
     # ---------------- alpha: statistic from the model's PIT, p-values in range
-    for it in range(ctx.scale(120, 1200)):
+    for it in range(ctx.scale(200, 2000)):
         n = rng.choice([2, 5, 10, 40])
         m = rng.choice([1, 3, 10])
         step = rng.choice([1.0, 0.1])
@@ -539,7 +569,12 @@ def body(ctx):
         seed = rng.randrange(2 ** 31)
         case = {"obs": obs.tolist(), "ens": ens.tolist(), "type": typ, "npseed": seed}
         np.random.seed(seed)
-        stat, pv, sudo = metrics.alpha(obs, ens, type=typ)
+        try:
+            stat, pv, sudo = metrics.alpha(obs, ens, type=typ)
+        except ValueError as e:
+            ctx.finding(f"alpha/{typ}/raises", "alpha raises on finite forecasts (its own PIT values are rejected by the test)",
+                        {**case, "error": str(e)[:200]})
+            continue
         np.random.seed(seed)
         pits, _ = metrics.pit(obs, ens, random=True)
         if not (0.0 <= pv <= 1.0):
@@ -547,7 +582,7 @@ def body(ctx):
         if typ == "CV":
             add(f"cvm {C.flist(pits)}", "cvm", float(stat), case)
         elif typ == "AD":
-            add(f"ad {C.flist(pits)}", "ad", ("ok", float(stat)), case)
+            add(f"ad {C.flist(pits)}", "ad", ("ok", float(stat), float(pv)), case)
         ctx.count(("alpha", obs.tobytes(), ens.tobytes(), typ, seed), True, f"alpha/{typ}")
 
     # ---------------- correspondence
@@ -570,14 +605,21 @@ def body(ctx):
             ok = rep == impl
         elif kind == "cvm":
             ok = C.close(C.h2f(rep), impl, rel=1e-12, abs_=1e-16)
+        elif kind == "cvmidx":
+            ok = rep == impl
+        elif kind == "cvmp":
+            ok = rep.startswith("some ") and C.close(C.h2f(rep.split(" ")[1]), impl, rel=1e-12, abs_=1e-15)
         elif kind == "cvmq":
             ok = C.close(float(Fraction(rep)), impl, rel=1e-12, abs_=1e-16)
         elif kind == "ad":
-            st, val = impl
+            st, val, pval = impl
             if rep.startswith("err"):
                 ok = st == "err"
             else:
-                ok = st == "ok" and C.close(C.h2f(rep.split(" ")[1]), val, rel=1e-12, abs_=1e-12)
+                toks = rep.split(" ")
+                ok = st == "ok" and C.close(C.h2f(toks[1]), val, rel=1e-12, abs_=1e-12)
+                if ok and pval is not None and math.isfinite(val):
+                    ok = C.close(C.h2f(toks[2]), pval, rel=1e-9, abs_=1e-10)
         if not ok:
             jc = {k: (v.tolist() if isinstance(v, np.ndarray) else v) for k, v in case.items()} if isinstance(case, dict) else case
             ctx.disagree(f"C10/{kind}: implementation and model differ",
@@ -587,15 +629,17 @@ def body(ctx):
         "glibc qsort is a stable merge sort (2.36); the model's sort parameter is instantiated by a stable merge sort",
         "np.argsort is external and not stable: for tied observations its tie-break is an input of the model",
         "np.random.uniform draws of pit(random=True) are re-drawn from the same seed and given to the model as inputs",
-        "p-values (Marsaglia polynomial fits, CvM table interpolation, scipy kstest) are only range-checked on the real code",
+        "the KS p-value (scipy kstest) is only range-checked on the real code; the AD p-value and the CvM interpolation are modelled",
         "floating point: ensrank is compared bit for bit; D, PIT, CvM, AD statistics within 1e-12",
     ]
 
 
 def main(tier, replay=None):
     return C.run_check(PID, tier, body, needs_native=True, replay=replay,
-                       level_partial=["pvalue_range_statement (AD / CvM / alpha p-values in [0, 1]: numerical fits and "
-                                      "table interpolation, observed on the real code only)"],
+                       level_partial=["pvalue_range_statement (p-values in [0, 1]): proved for Anderson-Darling (ad_pvalue_range) and for the "
+                                      "Cramer-von Mises interpolation given table entries in [0, 1] (pvalue_range_partial); the table "
+                                      "contents and scipy's kstest p-value (alpha type KS) are observed on the real code only"],
                        trusted=["glibc qsort stability, np.sort, np.argsort, np.corrcoef, scipy percentileofscore / rankdata / kstest (external)",
                                 "libm log (AD statistic)",
-                                "AD / CvM / KS p-value computations are not modelled"])
+                                "libm exp/sqrt/log (Marsaglia AD p-value); scipy kstest (alpha type KS) is not modelled",
+                                "contents of stat/data/cramer_von_mises_test_pvalues.zip (checked to lie in [0, 1] at every run)"])
